@@ -505,7 +505,7 @@ func checkC03(run *mon.Run, rng *mon.Rand, thorough bool) {
 				// the committed output is still honoured
 				ctl := env.L1.Branch().Deliver(good.Claim(0, user.String()))
 				run.Evaluations++
-				run.Check("C03.control_accepted", ctl.Class == sim.OK, "c03.control_rejected_after_ghost", append(steps, "committed: claim against the really stored output -> "+string(ctl.Class)+" "+ctl.ErrString()), "valid claim against the committed output %d rejected after a discarded branch touched that bridge (script %q)", good.Index, sc)
+				run.Check("C03.control_accepted", ctl.Class == sim.OK, "c03.control_rejected_after_ghost", append(steps, fmt.Sprintf("committed: claim against the really stored output -> %s %s", ctl.Class, ctl.ErrString())), "valid claim against the committed output %d rejected after a discarded branch touched that bridge (script %q)", good.Index, sc)
 				run.Distinct(fmt.Sprintf("C03/ghost/%s/%d", sc, rep%2))
 			}
 		}
